@@ -475,6 +475,8 @@ def run(prop, replay_file=None):
     rep.cov["long_curves"] = len(long_results)
     nontriv = set()
     import multiprocessing
+    # annualisation: 252 mostly, 52 for every fifth curve (JSONStatistics documents `periods` as an int: fractional values
+    # are not generated; the documented hourly figure 252 * 6.5 overflows a float on the steepest two-point curves)
     jobs = [(idx, cases[idx], results[idx], 252 if idx % 5 else 52, sd) for idx in range(len(cases)) if idx in results]
     with multiprocessing.Pool(16) as pool:
         outs = pool.map(_job, jobs, chunksize=16)
